@@ -803,7 +803,8 @@ def genExtractCheck (G : Grp) (st : GenSt) (I : Inbox) : Except Err (GenSt × In
   let compl := sortUniq st.n cm
   let ops : List Op := compl.flatMap
     (fun (it : Nat) => [Op.bc none (it : Int), Op.bc none (getI st.s it), Op.bc none (getI st.sp it)])
-  pure ({ st with A := A, compl := [] }, I1, ops ++ [Op.bc none (st.n : Int)], .run)
+  -- the own complaints stay in `complaints`: they are part of the reconstruction list of step 4(c)
+  pure ({ st with A := A, compl := compl }, I1, ops ++ [Op.bc none (st.n : Int)], .run)
 
 /-- the extraction complaints of sender `j` (step 4(c)): `(who, s, s')` is the share `j` received from
     dealer `who`; it must satisfy (4) for `who`'s commitments at `j`'s index (otherwise the complaint is
@@ -877,7 +878,7 @@ def genRecNext (G : Grp) (st : GenSt) : Except Err (GenSt × List Op × Status) 
 
 /-- step 4(c): collect the extraction complaints, enter `Reconstruct` -/
 def genExtractCollect (G : Grp) (st : GenSt) (I : Inbox) : Except Err (GenSt × Inbox × List Op × Status) := do
-  let (I1, cm) ← genExtractGo G st (List.range st.n) I []
+  let (I1, cm) ← genExtractGo G st (List.range st.n) I st.compl
   let racc := sortUniq st.n cm
   let st1 := { st with compl := racc, racc := racc, todo := racc }
   if racc.length > st.t then pure (st1, I1, [], .ret false)
